@@ -176,9 +176,12 @@ def build(run):
     crate_d, lemma_d = semantics_lemma(run)
     run.kani(crate_d, [lemma_d], timeout=300)
     crate_c, lemma_c = mm_lemma(run)
-    run.kani(crate_c, [lemma_c], timeout=900)
+    # D-C02-c (~300 s) and D-C02-e (~240 s of solver time for one harness each on the reference machine, 2-3x that on a slower one) are discharged by the
+    # thorough tier only: the quick command has to finish on every change.  Splitting D-C02-c by child count or lowering its bound to 4 children
+    # did not make it cheaper (the cost is the model DOM, not the case count), see DESIGN.md I.8
+    run.kani(crate_c, [dict(lemma_c, deep=True)], timeout=900)
     crate_e, lemma_e = merge_lemma(run)
-    run.kani(crate_e, [lemma_e], timeout=900)
+    run.kani(crate_e, [dict(lemma_e, deep=True)], timeout=900)
     crate_f, lemma_f = mn_lemma(run)
     run.kani(crate_f, [lemma_f], timeout=600)
     crate_h, lemma_h = lift_script_lemma(run)
